@@ -53,6 +53,8 @@ func RunHistoryW(h []Action, noformat bool, slow bool) []byte {
 			f.ImportNames(m)
 		case "Anon":
 			f.Anon(a.P)
+		case "Preamble":
+			f.CgoPreamble(a.N)
 		case "Add":
 			f.Add(b.Code(a.Tree))
 		case "Render":
